@@ -20,7 +20,7 @@ def run(rep, tier):
         "expected sweep computed in long double from the table; comparison 1e-10 relative to the largest entry of the result",
         "energy-norm monotonicity is implied for an exact block Gauss-Seidel of an SPD operator (C05) and not measured separately",
     ]
-    tabs = sc.tables(rep, tier, "c06", "ab")
+    tabs = sc.tables(rep, tier, "c06", "abc")
     tabs = [t for t in tabs if t["nc"] >= 2 and t["nr"] - t["nc"] >= 3]
     sc.conformance(rep, tier, tabs, "smoother", 200, "smoother", threads=(1, 3, 16) if tier == "thorough" else (1, 3))
     try:
